@@ -464,9 +464,11 @@ class ClusterView:
                         sus = nev >= 2 and a["mode"] == "rec" and not a["excl"]
                         if sus:
                             # created during a multi-event watch response
-                            self.suspects.append({"sid": f["sid"], "w": w[0], "step": stepno,
-                                                  "keys": sorted(set(e[2] for en in st["log"] if en["t"] == "resp" and
-                                                                     en["w"] == cl_tag(*W[w[0]]) for e in en["evs"]))})
+                            evs = [e for en in st["log"] if en["t"] == "resp" and en["w"] == cl_tag(*W[w[0]]) for e in en["evs"]]
+                            self.suspects.append({"sid": f["sid"], "w": w[0], "step": stepno, "kind": "hook",
+                                                  "before": dict(snapshot_before.get(w[0], {})),
+                                                  "evs": [(e[1], e[2], e[3]) for e in evs],
+                                                  "keys": sorted(set(e[2] for e in evs))})
                         join(f["sid"], w[0], a["mode"], a["excl"], normalise=True, atomic=sus)
                         if sus and f["sid"] not in exclude and str(f["sid"]) in st["subs"]:
                             # its notifications of this step follow the real replay order: not compared
@@ -491,7 +493,8 @@ class ClusterView:
                     sus = bool(touched) and not op[3] and any(st.get("injected") or [])
                     if sus:
                         # events about keys of the snapshot were handled while it was being replayed
-                        self.suspects.append({"sid": op[1], "w": op[2], "step": stepno, "keys": sorted(touched)})
+                        self.suspects.append({"sid": op[1], "w": op[2], "step": stepno, "keys": sorted(touched), "kind": "subj",
+                                              "before": dict((k, snapshot_before[op[2]][k]) for k in touched)})
                     join(op[1], op[2], "rec", op[3], normalise=True, atomic=sus)
                     cur[op[2]]["ops"][-1]["jn"] = 1
             elif name == "unsub":
@@ -1705,6 +1708,17 @@ class C13(Property):
     KNOWN_JOIN_SHAPE = {"delete": {"svc/k1": ["v2"], "svc/k2": ["v1"]},
                         "change": {"svc/k1": ["v2", "v9"], "svc/k2": ["v1", "v9"]}}
 
+    # the two-event corpus case (a subscriber created from inside a callback during a two-event watch response):
+    # Values() of every subscriber after each step ON THE UNCHANGED TREE - the committed table the corpus instance of the
+    # known finding is compared with (the joiner, sid 2, was handed [v0 v1] and never gets svc/k2=v2)
+    KNOWN_JOIN_CORPUS_OPS = [["put", "svc/k0", "v0"], ["spy", 0], ["sub", 0, 0, "rec", False], ["sub", 1, 0, "rec", False], ["pause"],
+                             ["put", "svc/k1", "v1"], ["put", "svc/k2", "v2"], ["hook", 0, "sub", 2, "rec", False, "in"], ["resume"],
+                             ["put", "svc/k3", "v3"]]
+    KNOWN_JOIN_CORPUS = [{}, {}, {"0": ["v0"]}, {"0": ["v0"], "1": ["v0"]}, {"0": ["v0"], "1": ["v0"]}, {"0": ["v0"], "1": ["v0"]},
+                         {"0": ["v0"], "1": ["v0"]}, {"0": ["v0"], "1": ["v0"]},
+                         {"0": ["v0", "v1", "v2"], "1": ["v0", "v1", "v2"], "2": ["v0", "v1"]},
+                         {"0": ["v0", "v1", "v2", "v3"], "1": ["v0", "v1", "v2", "v3"], "2": ["v0", "v1", "v3"]}]
+
     def known(self, case, obs):
         """C13-join-replay-overtakes-event, narrowly.  Only on a tree whose Registry.Monitor replays outside the cluster
         lock in exactly the shape of the unchanged tree (regenerated flag join_head: attach, unlock, replay getCurrent();
@@ -1715,10 +1729,20 @@ class C13(Property):
              injected during the replay, or a subscriber created by a hook during a watch response with >= 2 events;
         (ii) with those joiners left out, the case satisfies prop_ok (the registry's copy, every other subscriber, their
              notifications: all right), and each J is consistent with the calls it received and agrees with the
-             registry's copy on every key EXCEPT the keys of those events, and differs on at least one of them."""
+             registry's copy on every key EXCEPT the keys of those events, and differs on at least one of them;
+        (iii) the deviation has EXACTLY the shape the unchanged tree produces, computed from the case alone: a `subj` joiner
+             holds, for each such key, the value the key had before the step (the older replayed value won); a hook-created
+             joiner holds, on the keys of the response, the state after a proper prefix of its events (it was handed that
+             state and missed the rest); afterwards the deviation may only persist unchanged or heal.
+        The corpus instance and the monitor are pinned by committed tables (KNOWN_JOIN_CORPUS, KNOWN_JOIN_SHAPE)."""
         if case.get("kind") != "cluster" or obs.get("panic") or not getattr(self, "flags", {}).get("join_head"):
             return None
         try:
+            if case.get("ops") == self.KNOWN_JOIN_CORPUS_OPS and len(case.get("watchers") or []) == 1:
+                # the corpus instance: exactly the committed observation, nothing else
+                got = [dict((k, v["vals"]) for k, v in st["subs"].items()) for st in obs["steps"]]
+                if got != self.KNOWN_JOIN_CORPUS:
+                    return None
             cv = ClusterView(case, obs)
             if not cv.suspects:
                 return None
@@ -1727,7 +1751,7 @@ class C13(Property):
             for sp in cv.suspects:
                 sid, w, keys = str(sp["sid"]), sp["w"], set(sp["keys"])
                 tag = cl_tag(*W[w])
-                held = {}
+                held, wrong = {}, {}
                 for i in range(sp["step"], len(obs["steps"])):
                     st = obs["steps"][i]
                     so = st["subs"].get(sid)
@@ -1741,11 +1765,34 @@ class C13(Property):
                     reg = dict((k, v) for k, v in (st["state"].get(tag) or {}).get("values") or [])
                     if sorted(set(held.values())) != sorted(set(so["vals"])):
                         return None               # the container does not even reflect its own calls: something else
+                    now = {}
                     for k in set(held) | set(reg):
                         if held.get(k) != reg.get(k):
                             if k not in keys:
                                 return None       # wrong about a key no overlapped event was about
+                            now[k] = held.get(k)
                             differs = True
+                    if i == sp["step"]:
+                        # the EXACT shape of the unchanged tree, computed from the case alone (never from the tree under test):
+                        if sp["kind"] == "subj":
+                            # the older replayed value overwrote the event: the joiner holds what the key had before the step
+                            if any(v != sp["before"].get(k) for k, v in now.items()):
+                                return None
+                        else:
+                            # created during event j of the response: handed the registry's values after the first j events,
+                            # it misses the remaining ones - on the keys of the response it holds exactly that prefix state
+                            shapes, cur = [], dict(sp["before"])
+                            for t, k, v in sp["evs"][:-1]:
+                                if t == "put":
+                                    cur[k] = v
+                                else:
+                                    cur.pop(k, None)
+                                shapes.append(dict((k2, cur.get(k2)) for k2 in keys))
+                            if now and dict((k2, held.get(k2)) for k2 in keys) not in shapes:
+                                return None
+                    elif any(k not in wrong or wrong[k] != v for k, v in now.items()):
+                        return None               # a deviation that appeared or changed later is not this finding
+                    wrong = now
             if not differs:
                 return None
             term = ClusterView(case, obs, exclude=[sp["sid"] for sp in cv.suspects]).render()
